@@ -21,5 +21,36 @@ pub(crate) fn duration_to_instant(duration: Duration) -> Instant {
 /// A helper to get the current time as a `Duration` since the epoch.
 #[inline]
 pub(crate) fn now_duration() -> Duration {
+  #[cfg(excsn_fibre_verif)]
+  if verif::VIRTUAL.load(std::sync::atomic::Ordering::SeqCst) {
+    return Duration::from_nanos(verif::NOW_NANOS.load(std::sync::atomic::Ordering::SeqCst));
+  }
   instant_to_duration(Instant::now())
+}
+
+/// Verification hook (cfg `excsn_fibre_verif` only): a virtual clock for the
+/// cache. With the guard off this module does not exist.
+#[cfg(excsn_fibre_verif)]
+pub mod verif {
+  use std::sync::atomic::{AtomicBool, AtomicU64, Ordering};
+  use std::time::Duration;
+
+  pub(crate) static VIRTUAL: AtomicBool = AtomicBool::new(false);
+  pub(crate) static NOW_NANOS: AtomicU64 = AtomicU64::new(0);
+
+  /// Freezes the cache clock at `now` (nanoseconds since the cache epoch).
+  pub fn set_virtual(now: Duration) {
+    NOW_NANOS.store(now.as_nanos() as u64, Ordering::SeqCst);
+    VIRTUAL.store(true, Ordering::SeqCst);
+  }
+
+  /// Advances the frozen clock.
+  pub fn advance(d: Duration) {
+    NOW_NANOS.fetch_add(d.as_nanos() as u64, Ordering::SeqCst);
+  }
+
+  /// Current virtual time.
+  pub fn now() -> Duration {
+    Duration::from_nanos(NOW_NANOS.load(Ordering::SeqCst))
+  }
 }
